@@ -42,9 +42,9 @@ DEFAULT_LIMITS = Limits()
 # work bound constants (C10): line events inside http_parser.py per feed_data call
 #   work <= WA * bytes_in_call + WB * retained_before + WC      (fitted x4 on the unchanged tree)
 #   sum(work) <= WRA * sum(bytes) + WRK * calls + WC            (per run, amortised)
-# measured on the unchanged tree over generated / adversarial streams: 12, 8, 310 and 10, 60; margin x4
+# measured on the unchanged tree over generated / adversarial streams: 12, 8, 310 and 10, 29; margin x4
 WA, WB, WC = 48, 32, 1240
-WRA, WRK = 40, 240
+WRA, WRK = 40, 120
 
 
 def tla_cfg(mode: str, lim: Limits, *, until_eof: bool = False, with_body: bool = True) -> dict:
